@@ -3,6 +3,7 @@ import Driver.PerTestDrv
 import Driver.MocksDrv
 import Driver.CmpDrv
 import Driver.DblDrv
+import Driver.VecDrv
 open Cgreen.Drv
 
 /-- Read all of stdin as lines. -/
@@ -29,6 +30,11 @@ def main (args : List String) : IO UInt32 := do
   | ["pertest"] =>
     for b in blocks lines do
       for l in Cgreen.Drv.PT.runPerTest b do out.putStrLn l
+      out.putStrLn "---"
+    return 0
+  | ["vec", stp] =>
+    for b in blocks lines do
+      for l in Cgreen.Drv.VC.runLines (stp.toNat?.getD 100) b do out.putStrLn l
       out.putStrLn "---"
     return 0
   | ["dbl"] =>
